@@ -23,6 +23,8 @@ var c08Recs = []mockq.Rec{
 	{Line: `{"k":"w","a":"x\"y"}`, Labels: []mockq.KV{{K: "a", V: `x`}}},
 	{Line: `q`, Labels: []mockq.KV{{K: "a", V: `x"y`}}},
 	{Line: ``, Labels: []mockq.KV{{K: "b", V: `y`}, {K: "a", V: `x`}}},
+	{Line: `p`, Labels: []mockq.KV{{K: "a", V: `x`}, {K: "b", V: ``}}},
+	{Line: `p`, Labels: []mockq.KV{{K: "a", V: `x`}}},
 }
 
 type c08Input struct {
